@@ -139,7 +139,7 @@ def all_ignores(a, b):
                   ignore_provenance=bool(n & 8), ignore_timestamps=bool(n & 16), ignore_reference_sequence=bool(n & 32))
         eq.append(1 if a.equals(b, **kw) else 0)
         try:
-            a.assert_equals(b, **kw)
+            (a if hasattr(a, "assert_equals") else a.tables).assert_equals(b if hasattr(b, "assert_equals") else b.tables, **kw)
             aeq.append(1)
         except AssertionError:
             aeq.append(0)
@@ -266,9 +266,15 @@ def make_case(rng):
         change = [c for c in COMPS if rng.random() < 0.3]
         b = variant_of(rng, t0, change)
         eq, aeq = all_ignores(t0, b)
+        tseq, tsaeq = [], []
+        try:        # the same through the TreeSequence facade, when both are valid tree sequences
+            tsa, tsb = t0.tree_sequence(), b.tree_sequence()
+            tseq, tsaeq = all_ignores(tsa, tsb)
+        except (tskit.LibraryError, ValueError):
+            pass
         a_rec = {c: 0 for c in COMPS}
         b_rec = {c: (1 if c in change else 0) for c in COMPS}
-        case["eqs"].append(dict(a=a_rec, b=b_rec, eq=eq, aeq=aeq, change=change))
+        case["eqs"].append(dict(a=a_rec, b=b_rec, eq=eq, aeq=aeq, tseq=tseq, tsaeq=tsaeq, change=change))
     use_pipe = rng.random() < 0.4
     case["pipe"] = 1 if use_pipe else 0
     case["ops"] = stream_history(rng, objs, use_pipe)
